@@ -33,6 +33,7 @@ theorem deb_verify_panic_iff (H1 H2 : Bytes → Bytes) (pgp : Bytes → Option B
   generalize (entries f).2 = st
   cases vf
   · cases st <;> simp
+    split <;> simp
   · simp
 
 /-- neither function loops: the reader consumes at least 60 bytes per member -/
@@ -60,7 +61,8 @@ theorem deb_no_diverge (H1 H2 cs ctl) (pgp : Bytes → Option Bytes) (mt signer 
     intro hnf
     cases vf
     · cases st <;> simp
-      exact hnf rfl
+      · split <;> simp
+      · exact hnf rfl
     · simp
 
 /-- `ext := name[11:]` cannot panic: the slice is taken only under `strings.HasPrefix(name, "control.tar")` -/
